@@ -264,6 +264,8 @@ def parse_statement(lexer, toplevel=False):
                             )
                         if lexer.peekn(1, ";", "interpunction"):
                             lexer.match(";", "interpunction")
+                    else:
+                        lexer.match("def", "keyword")
                 lexer.match("end", "keyword")
                 return result
             else:
